@@ -21,7 +21,7 @@ COMP = Component(
 
 
 def run(prop, tier):
-    return COMP.run(prop, tier, crash_clause='C12.LibraryRaised')
+    return COMP.run(prop, tier, crash_clause='C12.LibraryRaised', floor_clauses=True)
 
 
 def replay(sc):
